@@ -343,6 +343,19 @@ int bn_is_prime_solov(const bn_t a) {
 
 	result = 1;
 
+	if (bn_cmp_dig(a, 2) == RLC_LT) {
+		/* Numbers 1 or smaller are not prime */
+		return 0;
+	}
+	if (bn_cmp_dig(a, 2) == RLC_EQ) {
+		/* The number 2 is prime */
+		return 1;
+	}
+	if (bn_is_even(a) == 1) {
+		/* Even numbers > 2 are not prime */
+		return 0;
+	}
+
 	RLC_TRY {
 		bn_new(t0);
 		bn_new(t1);
